@@ -30,9 +30,11 @@ import (
 	"github.com/plgd-dev/go-coap/v3/mux"
 	coapNet "github.com/plgd-dev/go-coap/v3/net"
 	"github.com/plgd-dev/go-coap/v3/options"
+	"github.com/plgd-dev/go-coap/v3/pkg/runner/periodic"
 	"github.com/plgd-dev/go-coap/v3/tcp"
 	tcpclient "github.com/plgd-dev/go-coap/v3/tcp/client"
 	"github.com/plgd-dev/go-coap/v3/udp"
+	udpserver "github.com/plgd-dev/go-coap/v3/udp/server"
 	udpclient "github.com/plgd-dev/go-coap/v3/udp/client"
 	"verifharness/internal/mem"
 )
@@ -57,13 +59,16 @@ type onCloseCounter struct {
 	b  []*atomic.Int32
 }
 
-func (c *onCloseCounter) add(register func(func())) {
+func (c *onCloseCounter) add(register func(func())) { c.addWith(register, func() {}) }
+
+// addWith: the first callback also runs `first` after it has been counted
+func (c *onCloseCounter) addWith(register func(func()), first func()) {
 	x, y := &atomic.Int32{}, &atomic.Int32{}
 	c.mu.Lock()
 	c.a = append(c.a, x)
 	c.b = append(c.b, y)
 	c.mu.Unlock()
-	register(func() { x.Add(1) })
+	register(func() { x.Add(1); first() })
 	register(func() { y.Add(1) })
 }
 
@@ -91,7 +96,18 @@ func (c *onCloseCounter) minmax() (int32, int32) {
 
 // slow: one more peer connects right before Stop() and the application's OnNewConn callback for it takes 150 ms: Stop()
 // arrives while that connection is between Accept and its registration in the server's connection table.
-func runServerStop(transport string, k int, slow bool) (line string) {
+//
+// appClose: the application closes every accepted connection itself (cc.Close()) and the first on-close callback of each
+// takes 60 ms; Stop() comes as soon as one of those callbacks has started, i.e. while the connection's shutdown — begun
+// by whoever noticed the closed connection first (its reader, or the datagram server's housekeeping sweep) — is still
+// walking the callbacks.  Every callback must still run exactly once.
+//
+// sweepBusy (datagram server only): every accepted connection has an inactivity monitor (150 ms, housekeeping every 50 ms)
+// whose callback — application code — takes 100 ms on its first call and then closes the connection; the clients stay
+// silent, so the housekeeping sweep is in the middle of its walk over the connections (holding its snapshot of the
+// table) when the application closes all of them and calls Stop().  Stop() and the sweep then both find the same closed
+// connections (with k = 3 in every order of the two walks: Stop takes 60 ms per connection, the sweep resumes at 100 ms).
+func runServerStop(transport string, k int, slow, appClose, sweepBusy bool) (line string) {
 	defer func() {
 		if r := recover(); r != nil {
 			line = fmt.Sprintf("panic %v", r)
@@ -109,13 +125,33 @@ func runServerStop(transport string, k int, slow bool) (line string) {
 	}))
 	counter := &onCloseCounter{}
 	var accepted atomic.Int32
-	onNew := func(register func(func())) {
+	var cbStarted atomic.Int32
+	var srvMu sync.Mutex
+	var srvClose []func() error
+	onNew := func(register func(func()), closeFn func() error) {
+		if appClose || sweepBusy {
+			srvMu.Lock()
+			srvClose = append(srvClose, closeFn)
+			srvMu.Unlock()
+			// the first of the two counted callbacks is the slow one
+			counter.addWith(register, func() {
+				cbStarted.Add(1)
+				time.Sleep(60 * time.Millisecond)
+			})
+			if slow && int(accepted.Add(1)) > k {
+				time.Sleep(150 * time.Millisecond)
+			}
+			return
+		}
 		counter.add(register)
 		if slow && int(accepted.Add(1)) > k {
 			time.Sleep(150 * time.Millisecond)
 		}
 	}
 	served := make(chan error, 1)
+	var sweepEntered atomic.Int32
+	sweepCtx, sweepCancel := context.WithCancel(context.Background())
+	defer sweepCancel()
 	var stop func()
 	var addr string
 	panics := 0
@@ -125,8 +161,18 @@ func runServerStop(transport string, k int, slow bool) (line string) {
 			return "conn-error"
 		}
 		defer l.Close()
-		s := udp.NewServer(options.WithMux(r), options.WithErrors(func(error) {}),
-			options.WithOnNewConn(func(cc *udpclient.Conn) { onNew(func(f func()) { cc.AddOnClose(f) }) }))
+		uopts := []udpserver.Option{options.WithMux(r), options.WithErrors(func(error) {}),
+			options.WithOnNewConn(func(cc *udpclient.Conn) { onNew(func(f func()) { cc.AddOnClose(f) }, cc.Close) })}
+		if sweepBusy {
+			uopts = append(uopts, options.WithPeriodicRunner(periodic.New(sweepCtx.Done(), 50*time.Millisecond)),
+				options.WithInactivityMonitor(150*time.Millisecond, func(cc *udpclient.Conn) {
+					if sweepEntered.Add(1) == 1 {
+						time.Sleep(100 * time.Millisecond)
+					}
+					_ = cc.Close()
+				}))
+		}
+		s := udp.NewServer(uopts...)
 		go func() { served <- s.Serve(l) }()
 		stop, addr = s.Stop, l.LocalAddr().String()
 	} else if transport == "dtls" {
@@ -136,7 +182,7 @@ func runServerStop(transport string, k int, slow bool) (line string) {
 		}
 		defer l.Close()
 		s := coapdtls.NewServer(options.WithMux(r), options.WithErrors(func(error) {}),
-			options.WithOnNewConn(func(cc *udpclient.Conn) { onNew(func(f func()) { cc.AddOnClose(f) }) }))
+			options.WithOnNewConn(func(cc *udpclient.Conn) { onNew(func(f func()) { cc.AddOnClose(f) }, cc.Close) }))
 		go func() { served <- s.Serve(l) }()
 		stop, addr = s.Stop, l.Addr().String()
 	} else {
@@ -146,7 +192,7 @@ func runServerStop(transport string, k int, slow bool) (line string) {
 		}
 		defer l.Close()
 		s := tcp.NewServer(options.WithMux(r), options.WithErrors(func(error) {}),
-			options.WithOnNewConn(func(cc *tcpclient.Conn) { onNew(func(f func()) { cc.AddOnClose(f) }) }))
+			options.WithOnNewConn(func(cc *tcpclient.Conn) { onNew(func(f func()) { cc.AddOnClose(f) }, cc.Close) }))
 		go func() { served <- s.Serve(l) }()
 		stop, addr = s.Stop, l.Addr().String()
 	}
@@ -251,6 +297,34 @@ func runServerStop(transport string, k int, slow bool) (line string) {
 		}
 		time.Sleep(20 * time.Millisecond)
 	}
+	if sweepBusy {
+		deadline := time.Now().Add(2 * time.Second)
+		for sweepEntered.Load() == 0 && time.Now().Before(deadline) {
+			time.Sleep(time.Millisecond)
+		}
+		if sweepEntered.Load() == 0 {
+			return "setup-failed"
+		}
+	}
+	if appClose || sweepBusy {
+		srvMu.Lock()
+		cl := append([]func() error(nil), srvClose...)
+		srvMu.Unlock()
+		for _, f := range cl {
+			_ = f()
+		}
+	}
+	if appClose {
+		// the shutdown of a closed connection starts when its reader, or the server's housekeeping (datagram server: a sweep
+		// every 100 ms … 4 s depending on the configuration), notices; wait for the first slow callback to have started
+		deadline := time.Now().Add(6 * time.Second)
+		for k > 0 && cbStarted.Load() == 0 && time.Now().Before(deadline) {
+			time.Sleep(2 * time.Millisecond)
+		}
+		if k > 0 && cbStarted.Load() == 0 {
+			return "setup-failed"
+		}
+	}
 	causeAt := time.Now()
 	var swg sync.WaitGroup
 	for i := 0; i < 3; i++ {
@@ -294,6 +368,16 @@ func runServerStop(transport string, k int, slow bool) (line string) {
 	}
 	time.Sleep(20 * time.Millisecond)
 	lo, hi := counter.minmax()
+	if appClose || sweepBusy {
+		// the slow callbacks run one connection after the other in the datagram server's sweep: give them time to finish
+		deadline := time.Now().Add(2 * time.Second)
+		for lo == 0 && time.Now().Before(deadline) {
+			time.Sleep(10 * time.Millisecond)
+			lo, hi = counter.minmax()
+		}
+		time.Sleep(150 * time.Millisecond) // … and a possible second run of one of them to show
+		lo, hi = counter.minmax()
+	}
 	if done == 0 {
 		after = -1
 	}
